@@ -255,8 +255,8 @@ def rule_TB10(rep, prog):
     want = {(R, 0): "data", (R, 5): "null", (W, 0): "null", (W, 5): "data"}
     n = 0
     for fn in prog.all_functions():
-        if not fn.name.startswith(("___dispatch_operation_enqueue_block_invoke", "___dispatch_operation_create_block_invoke")):
-            continue
+        if "_block_invoke" not in fn.name or not fn.file.endswith("io.c"):
+            continue          # any block of io.c that completes an operation early: recognised by its shape below, not by its name
         hs = [c for c in _handler_calls(prog, fn) if c.ops[1][0] == "c" and c.ops[1][1] == 1]
         if len(hs) != 1:
             continue
